@@ -628,6 +628,8 @@ package cbor
 //@   arith bv
 //@   flag tags binary_log
 //@   ensures len(res) == n
+//@   loop 1:
+//@     invariant 0 <= i && i <= n && len(ret) == i
 
 //@ func decodeStringComplex(dst, s, pos) res
 //@   props C17 C08
